@@ -171,6 +171,18 @@ def run_shard(shard):
                 acc.counters["skipped_degenerate"] += 1
             elif bad:
                 acc.violation(case, bad[0], bad[1], order=(len(data), di, ci))
+    if shard["rem"] == 0:  # box sizes that need more than six significant digits
+        for di, ws in enumerate(((100 / 3, 116.2265625), (1047.5625, 20), (33.333333333333336, 55, 7.1))):
+            times = dc.LIN_TIMES if shard["kind"] == "lin" else dc.DT_TIMES
+            data = [dc.datum((times[(2 * i) % len(times)], w, "ab" if i % 2 else None)) for i, w in enumerate(ws)]
+            for ci, cfg in enumerate(cfgs):
+                case = {"kind": shard["kind"], "data": data, "cfg": list(cfg), "variant": (di + ci) % len(VARIANTS)}
+                bad = judge(case, acc)
+                acc.evals += 2
+                acc.trans += 2
+                acc.counters["fractional_width_pairs"] += 1
+                if bad and bad[0] != "SKIP":
+                    acc.violation(case, bad[0], bad[1], order=(9, di, ci))
     if case:
         acc.sample(case)
     return acc
